@@ -307,7 +307,23 @@ func classifyCrash(out []byte, idx int) Verdict {
 	}
 	// strip closure suffixes for a stable class key
 	key := regexp.MustCompile(`\.func\d+(\.\d+)*$`).ReplaceAllString(fn, "")
-	return Verdict{Status: Violated, Key: "crash@" + key, What: "process died: " + kind + " in " + fn, Trace: tr}
+	suffix, input := "", ""
+	for _, l := range lines[:start] {
+		if strings.HasPrefix(l, "=== KEYSUFFIX ") {
+			suffix = strings.TrimPrefix(l, "=== KEYSUFFIX ")
+		}
+		if strings.HasPrefix(l, "=== INPUT ") {
+			input = strings.TrimPrefix(l, "=== INPUT ")
+		}
+	}
+	what := "process died: " + kind + " in " + fn
+	if input != "" {
+		if len(input) > 600 {
+			input = input[:600] + "..."
+		}
+		what += " | last input: " + input
+	}
+	return Verdict{Status: Violated, Key: "crash@" + key + suffix, What: what, Trace: tr}
 }
 
 func tailLines(s string, n int) []string {
